@@ -72,11 +72,17 @@ def _work(args):
                 'inlined': [], 'dropped': [], 'assumptions': [], 'stats': {}, 'verify': True}
 
 
+_REPLAY_SEQ = {}
+
+
 def _replay(ex, c, info, o, prop, rp):
     """try to turn the solver's counter-model into a failing input of the real code"""
     out = {'replay': None, 'reproduced': False, 'replay_output': ''}
     safe = re.sub(r'[^A-Za-z0-9_.-]+', '_', o.name)[:150]
-    path = os.path.join(VERIF, 'replays', '%s-%s.py' % (prop, safe))
+    # one file per failing path of a clause (a later path must not overwrite the replay a VIOLATION line points to)
+    _REPLAY_SEQ[safe] = _REPLAY_SEQ.get(safe, 0) + 1
+    n = _REPLAY_SEQ[safe]
+    path = os.path.join(VERIF, 'replays', '%s-%s%s.py' % (prop, safe, '' if n == 1 else '.%d' % n))
     inputs = []
     if c.replay:
         try:
